@@ -173,9 +173,11 @@ def _check_generate(ctx, prog, vals, args, res, events, subset, cons_np, d0, ass
         ctx.violation(key, {**d, "weight": gfi.fnum(w), "reference_weight": want_w,
                             "reference_by_address": {gfi.pstr(p): v for p, v in by.items()}, "tol": t})
         return False
-    if not gfi.args_recorded(tr, args):
-        ctx.violation("generate|get_args-differs", d)
-        return False
+    ap = gfi.args_problem(tr, args)
+    if ap is not None:
+        ctx.violation("generate|get_args-differs" + ap, d)
+        if not ap.endswith("recorded-per-lane"):
+            return False
     # site events: unconstrained sites drawn from their conditional prior, constrained never sampled
     if has_probe:
         ghost = R.run(prog, vals, choices=R.full_choices(tr, prog))
